@@ -28,9 +28,9 @@ ASSUMPTIONS = [
 
 ATOMS_FULL = [["disp", "str"], ["disp", "list"], ["disp", "tag"], ["disp", "none"], ["disp", "ellipsis"],
               ["disp", "repr"], ["disp", "set"], ["disp", "dict"], ["raise"], ["reenter", "self"],
-              ["reenter", "outer"], ["disp", "xr"], ["disp", "dep"], ["inspect-active"]]
+              ["reenter", "outer"], ["disp", "xr"], ["disp", "dep"], ["inspect-active"], ["rebind-children"]]
 ATOMS_RED = [["disp", "str"], ["disp", "set"], ["raise"], ["reenter", "outer"], ["disp", "repr"],
-             ["inspect-active"]]
+             ["inspect-active"], ["rebind-children"]]
 
 
 class Boom(Exception):
@@ -116,6 +116,13 @@ def run_body(body, stack, R: Run):
             else:
                 R.exp_rec.append(("val", repr(v)))
                 sys.displayhook(v)
+        elif k == "rebind-children":
+            # the block's tag gets a new child-list object (same content) through its public attribute:
+            # values displayed afterwards still belong to the tag
+            if stack:
+                from htmltools import TagList
+                t = stack[-1]
+                t.children = TagList(*t.children)        # new list object, same nodes
         elif k == "inspect-active":
             # read-only operations on the tag whose block is active must not disturb the hook chain
             if stack:
@@ -313,6 +320,40 @@ def fn_default_hook(prog):
     return (True, None, [(k + ":default-hook" if not k.endswith("default-hook") else k, m, d) for k, m, d in viols], 1)
 
 
+def fn_strict_hook(prog):
+    """the enclosing hook RAISES when it is handed a tag: the block still restores the hook that was
+    installed when it was entered."""
+    from htmltools import Tag
+
+    class Strict(Exception):
+        pass
+
+    def strict(v):
+        if isinstance(v, Tag):
+            raise Strict()
+    R = Run()
+    saved = sys.displayhook
+    sys.displayhook = strict
+    viols = []
+    try:
+        try:
+            run_body(prog, [], R)
+        except Viol as v:
+            viols.append(v.v)
+        except Strict:
+            pass
+        except Exception as e:
+            if type(e).__name__ != R.expected_fault:
+                viols.append(("wrong-exception", f"{type(e).__name__}: {e}", {}))
+        if sys.displayhook is not strict:
+            viols.append(("hook-not-restored:raising-enclosing-hook", "the enclosing hook raised while receiving the tag "
+                          "and sys.displayhook was left pointing at the exited block", {}))
+    finally:
+        sys.displayhook = saved
+    viols += [v for v in R.viols if v[0] == "hook-not-restored"]
+    return (True, None, [(k if "raising" in k else k + ":raising-enclosing-hook", m, d) for k, m, d in viols], 1)
+
+
 def bodies(atoms, lens):
     """lens[0] = max body length at this level; deeper levels follow."""
     if len(lens) == 1:
@@ -347,6 +388,10 @@ def plan(tier):
     out.append(dict(kind="space", name="default-displayhook", fn=fn_default_hook,
                     space=Map(dh, lambda body: [["block", body]]),
                     note="one outer block entered under sys.__displayhook__ (output captured): tag printed once and bound to builtins._"))
+    sh = bodies([["disp", "str"], ["raise"], ["disp", "set"]], [2, 1])
+    out.append(dict(kind="space", name="raising-enclosing-hook", fn=fn_strict_hook,
+                    space=Map(sh, lambda body: [["block", body]]),
+                    note="one outer block (nested blocks inside) under an enclosing hook that raises when handed a tag"))
     out.append(dict(kind="space", name="falsy-outer-hook", fn=fn_falsy, space=Seq(top_ev, 0, 2),
                     note="sequences of <= 2 top-level events with a falsy callable object as the outermost hook"))
     return out
